@@ -286,10 +286,10 @@ def prog_C11(ctx):
 
 
 def prog_C13(ctx):
-    generic(ctx, ['Dc4bcVerif.Props.C13', 'Dc4bcVerif.Props.C13Fsm', 'Dc4bcVerif.Props.C18'], 'nodediff', 'node', ['C13'], NODE_TRUSTED +
+    generic(ctx, ['Dc4bcVerif.Props.C13', 'Dc4bcVerif.Props.C13Fsm', 'Dc4bcVerif.Props.C13Node', 'Dc4bcVerif.Props.C13Start', 'Dc4bcVerif.Props.C18'], 'nodediff', 'node', ['C13'], NODE_TRUSTED +
             ['translator: the ordered list of calls with durable effects per function of node_service.go (Gen/Effects.lean), regenerated on every run; order_in_source / answer_order_in_source are kernel-evaluated over it',
              'crashdiff: a real ceremony in which one node is killed before its k-th durable effect (every write to its state store, every send to the board; enumerated from a crash-free reference run), restarted with the real constructors on the same directories, and driven on; results of the airgapped machine are re-submitted, not re-computed',
-             'assumed by crash_safe, not proved: ReapplySafe of the real handler (a message already applied is refused or repeated without effect), atomicity of one LevelDB write, durability of the board file'],
+             'assumed, not proved: atomicity of one LevelDB write, durability of the board file (ReapplySafe of the handler is proved for the node model: node_reapplySafe)'],
             NODE_RULE, cov_from_stats=node_cov)
     ev = ctx.cov.get('evaluations', 0)
     cr = monitor_only(ctx, 'crashdiff', ['C13'], 'crash_injection')
